@@ -11,6 +11,7 @@ require (
 	github.com/google/osv-scalibr v0.0.0
 	github.com/mattn/go-sqlite3 v1.14.22
 	github.com/ossf/osv-schema/bindings/go v0.0.0-20250210065807-ab8a4f6e6389
+	github.com/package-url/packageurl-go v0.1.2
 	golang.org/x/mod v0.21.0
 )
 
@@ -64,7 +65,6 @@ require (
 	github.com/opencontainers/image-spec v1.1.0 // indirect
 	github.com/opencontainers/runtime-spec v1.1.0 // indirect
 	github.com/opencontainers/selinux v1.11.0 // indirect
-	github.com/package-url/packageurl-go v0.1.2 // indirect
 	github.com/pandatix/go-cvss v0.6.2 // indirect
 	github.com/pkg/errors v0.9.1 // indirect
 	github.com/rust-secure-code/go-rustaudit v0.0.0-20250226111315-e20ec32e963c // indirect
